@@ -1,5 +1,6 @@
 import NbioVerif.Properties.C09
 #print axioms Resp.c09_write_returns_len
+#print axioms Resp.c09_stage1
 #print axioms Resp.c09_wire_shape
 #print axioms Resp.c09_stage1_unframe
 #print axioms Resp.unchunk_encode
